@@ -22,6 +22,11 @@ pub async fn on_did_change_watched_files(
         match file_type {
             Some(WatchedFileType::Lua) => {
                 if file_event.typ == FileChangeType::DELETED {
+                    // a document that is open in the editor stays analysed with the
+                    // editor's text; closing it removes it if the file is still gone
+                    if workspace.is_open_file(&file_event.uri) {
+                        continue;
+                    }
                     analysis.remove_file_by_uri(&file_event.uri);
                     if !lsp_features.supports_pull_diagnostic() {
                         context
